@@ -224,6 +224,8 @@ def findings_of(line, res, cls="", origin=""):
                     out.append(("span:ncl:%s:%s" % (reason, norm_msg(diag.split(":")[0], 40)), "%s: %s" % (stage, detail)))
                 else:
                     out.append(("span:%s:%s" % (fmt, reason), "%s: %s" % (stage, detail)))
+            elif kind == "typelaw":
+                out.append(("typelaw:" + norm_msg(detail.split(":")[0], 60), "%s: %s" % (stage, detail)))
             else:
                 out.append(("%s:%s" % (kind, stage), "%s: %s" % (stage, detail)))
     elif res.startswith("CRASH "):
@@ -970,6 +972,49 @@ def run_matrix(ck):
     process(ck, cases, res)
 
 
+# ----------------------------------------------------------------------------- type law, error matrix
+
+def run_type_law(ck):
+    """print_runtime(T) parses back with FixedTypeParser and printing is stable: the invariant that
+    error rendering (error/mod.rs blame_error::path_span ... .unwrap()) relies on; a direct oracle."""
+    cases = gen.type_law_cases()
+    rc, out, err = core.run_sharded(c10bin(), ["typelaw"], [t.encode().hex() for t, _ in cases], timeout=1800)
+    if rc:
+        ck.obligation("typelaw-run", "internal", False, "rc=%s %s" % (rc, err[-800:]))
+        return
+    ck.coverage["type_law_cases"] = len(cases)
+    for (t, d), r in zip(cases, out):
+        ck.case(key="typelaw:" + t, nontrivial=True)
+        ck.hist("type_law", r.split(" ")[0])
+        if r.startswith(("FAIL", "PANIC")):
+            ck.violation(skey("typelaw:" + norm_msg(r.split(" ", 1)[1].split(":")[0] if " " in r else r, 60)),
+                         "printer/parser law broken for the type %r (%s): %s" % (t, d, r[:300]),
+                         {"case": case_line("ncl", t.encode()), "format": "ncl", "class": "typelaw", "origin": d, "input": t, "result": r[:1000]})
+        elif r == "NOTYPE":
+            ck.obligation("typelaw:generated type does not parse", "correspondence", False, "%r (%s)" % (t, d))
+
+
+def run_error_matrix(ck):
+    """every type shape x every systematic static type error / every blame path and contract
+    source; every program ends in an error that is rendered (text, colour, JSON) and whose labels
+    are checked"""
+    m = gen.error_matrix()
+    ck.coverage["error_matrix"] = {"programs": len(m), "static_forms": len(gen.STATIC_ERRORS), "blame_sources": len(gen.BLAME_SOURCES)}
+    cases = [("ncl,tcerrs" if fam == "static" else "ncl,errs", (gen.ANNOT_PRELUDE + body).encode(), "errors:%s:%s" % (fam, form), "%s/%s/%s" % (form, shape, idk)) for body, fam, form, shape, idk in m]
+    rc, res, err = run_pipeline([case_line(f, d) for f, d, _, _ in cases], timeout=60)
+    if rc:
+        ck.obligation("error-matrix-run", "internal", False, "rc=%s %s" % (rc, err[-800:]))
+    best = process(ck, cases, res)
+    # the matrix is meant to produce errors: count what came out
+    for (f, d, cls, origin), r in zip(cases, res):
+        _, st, _ = findings_of(case_line(f, d), r, cls, origin) if False else (None, json.loads(r[2:]).get("stages", {}) if r.startswith("R ") else {}, None)
+        fam = cls.split(":")[1]
+        tw, ev = outcome_class(st.get("typecheck_walk", "-")), outcome_class(st.get("eval_full", "-"))
+        if fam == "static" and tw == "ok":
+            ck.hist("error_matrix_static_forms_that_typecheck", origin.split("/")[0])
+        ck.hist("error_matrix_outcomes", "%s:%s" % (fam, tw if tw != "ok" else "eval:" + ev))
+
+
 # ----------------------------------------------------------------------------- the ledger
 
 def ledger_obligations(ck):
@@ -1029,6 +1074,8 @@ def run(ck):
         correspond_lexer(ck, exe_model, n_lex)
         correspond_toml(ck, exe_model, int((400 if quick else 8000) * min(scale, 1)) if scale < 1 else (400 if quick else 8000))
     run_matrix(ck)
+    run_type_law(ck)
+    run_error_matrix(ck)
     cor = corpus_cases()
     focus = 2 if (appeared or gone) else 1      # a ledger mismatch widens the search
     cases = cor + generate(ck, scale * focus)
@@ -1056,6 +1103,7 @@ def run(ck):
         "numbers, strings with interpolation and multiline strings, booleans, enums, arrays, records with metadata, let/fun/if/match, annotations, std calls), "
         "grammar-generated well-formed JSON / YAML / TOML documents with edge scalars (inf, nan, huge and odd numbers, dates, tags, anchors and aliases, merge keys, non-ASCII and empty keys) at every structural position (tables, dotted keys, inline tables, arrays, arrays of tables, inline tables inside arrays ...), as main file, through a real file import and through std.deserialize; "
         "an exhaustive annotation matrix (every position where the grammar allows an annotation or a type: let, let rec, let blocks, inline | and :, record fields with |, :, both, without definition, piecewise, paths, quoted and dynamic names, every metadata combination, include, patterns in let / fun / match with defaults and sub-patterns, record types and contracts, types as values, function bodies, array elements, match arms ... x every type shape: identifiers, arrays, arrows, the three kinds of forall, enums with payloads, records with and without tails, both dictionary flavours, nested x every identifier kind inside types: builtin, let-bound alias, let-bound contract, field-bound, std path, record access, application; about 7300 programs, batched by position, each through lex, parse, both typechecking modes, full evaluation with pretty-printing and query, plus a rotating seventh with values violating the annotation); "
+        "an error matrix (every type shape x 21 systematic static type errors with the shape on the expected and on the inferred side: arrow domain / codomain / nested / arity mismatches, plain mismatches, missing / extra / mismatching record and enum rows, array and dictionary element mismatches, rigid type variables, record-to-dictionary; and x run-time blame errors violating each path of the shape, the contract reaching the value through 16 kinds of source: inline, let, field, let-bound / record-stored / function-made type, std.contract.apply, wrapped in an array, dictionary, enum payload, arrow domain or codomain, record type, pattern; about 2200 programs, each ending in an error that is rendered as text with and without colour and as JSON, labels checked); the printer / parser law on about 5000 types (every shape in every type context, composed twice): the runtime printer's output parses back with FixedTypeParser and is stable; "
         "ill-typed (same skeleton with sub-terms of another type, wrong annotations, every %primop% of the lexer's token table and every function of "
         "std.{array,string,number,record,contract,enum,function} applied to a pool of edge values), ill-formed (token-level damage of generated programs); "
         "(b) token-level mutations (delete/duplicate/swap/replace/insert tokens, unbalance brackets, change string delimiters, insert %{ and }, edge number "
